@@ -290,6 +290,7 @@ func TestC15(t *testing.T) {
 	shapeCase(c, "pointer to a struct whose MarshalJSON adds an undeclared key", func(i int) *marked { return &marked{i} }, func(e *marked) int { return e.ID }, false)
 	crossShape(c)
 	sameName(c)
+	queuedNames(c)
 	run.Sample(map[string]any{"shape": "*state.ChangeMessage", "event_type_name": ebu.EventType(&state.ChangeMessage{}), "go_type": "*state.ChangeMessage", "apis": []string{"persist-name", "replay-eventtype-compare", "subscribe-replay-phase", "subscribe-live-phase", "upcast-as-source", "upcast-as-target", "upcast-target-into-subscription"}})
 	run.Exhaustive(true)
 	_ = json.Valid
@@ -316,6 +317,39 @@ func sameName(c *caseCtx) {
 		c.run.Violation("typename:typed-upcast-between-equal-names", "RegisterUpcast between two Go types whose EventType name is the same (\"c15.same-name\") was accepted: an upcaster of a name to itself, or one filed under names other than the ones events are persisted with", nil)
 	}
 	_ = err2 // plain and *plain have different names ("c15.plain" / "*c15.plain"): either answer is fine here
+}
+
+// writeBehind is a store that queues the *Event it is handed and reads its fields only when it
+// writes the queue out.
+type writeBehind struct{ queue []*ebu.Event }
+
+func (s *writeBehind) Append(_ context.Context, e *ebu.Event) (ebu.Offset, error) {
+	s.queue = append(s.queue, e)
+	return ebu.Offset(fmt.Sprintf("%020d", len(s.queue))), nil
+}
+func (s *writeBehind) Read(context.Context, ebu.Offset, int) ([]*ebu.StoredEvent, ebu.Offset, error) {
+	return nil, "", nil
+}
+
+// queuedNames: events of several types queued in a write-behind store are each written under the
+// name EventType reports for them.
+func queuedNames(c *caseCtx) {
+	st := &writeBehind{}
+	bus := ebu.New(ebu.WithStore(st))
+	ebu.Publish(bus, plain{1})
+	ebu.Publish(bus, namedVal{2})
+	ebu.Publish(bus, &namedPtr{3})
+	ebu.Publish(bus, chg(4))
+	ebu.Publish(bus, plain{5})
+	want := []string{ebu.EventType(plain{}), ebu.EventType(namedVal{}), ebu.EventType(&namedPtr{}), ebu.EventType(chg(4)), ebu.EventType(plain{})}
+	var got []string
+	for _, e := range st.queue {
+		got = append(got, e.Type)
+	}
+	c.run.Case("persist-name|write-behind store", true)
+	if fmt.Sprint(got) != fmt.Sprint(want) {
+		c.run.Violation("typename:persist-name:write-behind-store", fmt.Sprintf("five events of four types queued in a write-behind store carry the names %v when it writes them out, EventType reports %v", got, want), nil)
+	}
 }
 
 type versioned struct{ ID, V int }
